@@ -478,9 +478,20 @@ def guarded_ge(f, block, l_op, r_op):
 
 
 def structurally_ge(f, l_op, r_op):
-    """l = r + something / l = x + c with c >= r const"""
+    """l = r + something / l = x + c with c >= r const; l - (l % k) and k - (y % k)"""
     rc = const_int(r_op)
     ll = op_local(l_op)
+    # r is a remainder: `l % k` (at most l) or `y % l` (less than l)
+    rl0 = op_local(r_op)
+    if rl0 is not None and ll is not None:
+        ro = f.origin_local(f.copy_root(rl0))
+        if ro[0] == "place" and ro[1][0] == "binop":
+            ro = ro[1]
+        if ro[0] == "binop" and ro[1]["op"] == "Rem":
+            from rules_sym import deep as _dp
+            L = _dp(f, l_op, 6)
+            if L == _dp(f, ro[1]["l"], 6) or L == _dp(f, ro[1]["r"], 6):
+                return True
     if ll is None:
         return False
     o = f.origin_local(f.copy_root(ll))
